@@ -232,13 +232,20 @@ def merge_runs(h):
 @contract("C06", G + ".float_to_int", name="int-passthrough-and-rounding")
 def float_to_int(h):
     x = h.reals("x", 2)
-    out = h.fn(G + ".float_to_int")(x, digits=3)
-    # definition of float equality used by the property: round(x*10^digits - 1e-6)
-    conds = []
-    for i in range(2):
-        t = x[i] * 1000.0 - 1e-6
-        conds.append(h.all([out[i] - t <= 0.5, t - out[i] <= 0.5]))
-    h.check("nearest-integer-of(x*10^d - 1e-6)", h.all(conds))
+    # definition of float equality used by the property: round(x*10^digits - 1e-6), for the
+    # REQUESTED number of digits - every value an explicit caller may pass, 0 included
+    import numpy as _np
+
+    tolmerge = h.module("trimesh.constants").tol.merge
+    for digits, tag in ((3, "3"), (0, "0"), (1, "1"), (_np.int64(0), "np.int64(0)"), (8, "8"), (None, "None")):
+        out = h.fn(G + ".float_to_int")(x, digits=digits)
+        d = digits if digits is not None else h.module("trimesh.util").decimal_to_digits(tolmerge)
+        conds = []
+        for i in range(2):
+            t = x[i] * float(10 ** int(d)) - 1e-6
+            conds.append(h.all([out[i] - t <= 0.5, t - out[i] <= 0.5]))
+        h.check("nearest-integer-of(x*10^d - 1e-6)[digits=%s]" % tag, h.all(conds))
+    h.check("default-digits-from-tol.merge=8", h.module("trimesh.util").decimal_to_digits(tolmerge) == 8)
     v = h.ints("v", 2)
     out2 = h.fn(G + ".float_to_int")(v)
     h.check("integers-unchanged", h.exact(out2, v))
